@@ -860,6 +860,99 @@ def n1_reachable_law(F, r):
         r.fail("ReachableConstraint: legs", "only one of the two new legs is ever tested", F.loc(m))
 
 
+TWC = "vrp_core::construction::features::transport::TransportConstraint::evaluate_activity"
+
+
+def w1_time_window_law(F, r):
+    """time windows: evaluate_activity admits a position iff every arrival is not after its latest allowed arrival and the shift does not end before a window
+    starts; `fail` (abort the scan) is only raised on facts that do not involve the arrival at the target. Finite evaluation over all orderings of the compared values;
+    arithmetic results are opaque symbols named after the variables (`arr_*`, `latest_*`) they define."""
+    from .. import ordeval as oe
+    if TWC not in F.fns:
+        raise AnchorError(TWC)
+
+    def verdict(k):
+        return lambda i_, a, h, rl: ("agg", "verdict#" + k, {})
+    it = oe.Interp(F, TWC, {1: oe.ref(oe.sym("self")), 2: oe.ref(oe.sym("route_ctx")), 3: oe.ref(oe.sym("actx"))}, fresh=True, enum_results=True, max_steps=4000,
+                   call_models={"ConstraintViolation::fail": verdict("fail"), "ConstraintViolation::skip": verdict("skip"), "ConstraintViolation::success": verdict("success")})
+    it.name_values = True
+    try:
+        paths = it.explore(max_paths=20000)
+    except oe.Undecided as e:
+        r.fail("evaluate_activity", f"not evaluable over the finite orderings: {e}", F.loc(TWC))
+        return
+
+    def bad(a):
+        """is this assumption a `too late` / `shift over` fact?  None = not a recognised comparison"""
+        if a[0] == "callret":
+            return bool(a[2]) if a[3] and a[3].endswith("is_some_and") else None
+        if len(a) != 3 or a[0] == "switch":
+            return None
+        x, y, o = a
+        if y.split(".")[-1].startswith("latest") or y.startswith("latest"):
+            return o == "G"
+        if x.split(".")[-1].startswith("latest") or x.startswith("latest"):
+            return o == "L"
+        if x.endswith("time.end") and y.endswith("time.start"):
+            return o == "L"
+        if y.endswith("time.end") and x.endswith("time.start"):
+            return o == "G"
+        return None
+    kinds = set()
+    allpairs = set()
+    n_ok = 0
+    first_direct = None
+    for p in paths:
+        for a in p.assumptions:
+            if len(a) == 3 and a[0] != "switch" and isinstance(a[2], str):
+                allpairs.add((a[0].split("@")[0], a[1].split("@")[0]))
+                if bad(a) is not None:
+                    kinds.add((a[0].split("@")[0], a[1].split("@")[0]))
+            if len(a) == 3 and a[0].startswith("arr_time_at_next@"):
+                ln = int(a[0].split("@")[1])
+                first_direct = ln if first_direct is None else min(first_direct, ln)
+    if len(allpairs) < 5:
+        r.fail("evaluate_activity: comparisons", f"only {len(allpairs)} value comparisons are left ({sorted(allpairs)}): arrivals at the target / next activity are no longer all checked against "
+               "their latest times (5 counted: shift end vs prev/target window, arrival at next directly, target window start, arrival at target, arrival at next via target)", F.loc(TWC))
+        return
+    if len(kinds) < len(allpairs):
+        r.ok("evaluate_activity: verdicts", f"not decided: {len(allpairs) - len(kinds)} of {len(allpairs)} comparisons relate variables that are not named `latest_*` / `*.time.end|start` "
+             f"({sorted(allpairs - kinds)[:2]}), so the roles of their operands are unknown")
+        return
+    worst = {}
+    for p in paths:
+        facts_ = [(a, bad(a)) for a in p.assumptions]
+        facts_ = [(a, b) for a, b in facts_ if b is not None]
+        v = p.ret[1].split("#")[1] if p.ret and p.ret[0] == "agg" and str(p.ret[1]).startswith("verdict#") else str(p.ret)
+        anybad = [a for a, b in facts_ if b]
+        key = None
+        if v == "success" and anybad:
+            a = anybad[0]
+            key = ("admitted", a[0].split("@")[0] if a[0] != "callret" else "shift end", a[1].split("@")[0] if a[0] != "callret" else "next window", a[2])
+            msg = f"the position is admitted although `{key[1]}` {'<=>'['LEG'.index(a[2])] if a[0] != 'callret' else 'vs'} `{key[2]}` says it is too late / outside the shift"
+        elif v in ("fail", "skip") and not anybad:
+            key = ("rejected", v)
+            msg = f"the position is rejected ({v}) although every compared arrival is on time (an arrival exactly AT its latest time must be admitted)"
+        elif v == "fail" and anybad:
+            a = anybad[-1]
+            position_free = a[0] == "callret" or a[0].endswith("time.end") or a[1].endswith("time.end") or (first_direct is not None and a[0] == f"arr_time_at_next@{first_direct}")
+            if not position_free:
+                key = ("fail", a[0].split("@")[0], a[1].split("@")[0])
+                msg = f"the scan is ABORTED (fail) because `{key[1]}` is after `{key[2]}` — a fact about this position of the target only: later feasible positions are never tried"
+        elif v not in ("fail", "skip", "success"):
+            key = ("verdict", v)
+            msg = f"unrecognised verdict {v}"
+        if key is None:
+            n_ok += 1
+        elif key not in worst:
+            worst[key] = msg
+    for key, msg in sorted(worst.items()):
+        r.fail("evaluate_activity: " + " ".join(str(k) for k in key), msg, F.loc(TWC))
+    if not worst:
+        r.ok("evaluate_activity: verdicts", f"{n_ok} orderings: admitted iff no arrival is after its latest time and the shift covers the windows; fail only on target-independent facts")
+    r.ok("evaluate_activity: comparisons", f"{len(kinds)} distinct comparisons evaluated: " + ", ".join(sorted(f"{a}~{b}".replace("actx.", "") for a, b in kinds))[:300])
+
+
 CAP_NAMES = ("capacity", "available", "resource_available", "resources", "resource_capacity")
 
 
@@ -1262,6 +1355,7 @@ def run(ctx):
     ctx.run("C01-Q1", "no comparison in constraint code relates a value to itself (a constant guard)", q1_no_self_comparison, floor=1)
     from .common import operator_agreement
     ctx.run("C01-O2", "load / cost / statistic operators: every impl Add/Sub/Mul computes with its own operator family", operator_agreement, floor=8)
+    ctx.run("C01-W1", "time windows: admitted iff no arrival after its latest time and the shift covers the windows; fail only on target-independent facts (finite evaluation)", w1_time_window_law, floor=2)
     ctx.run("C01-N1", "reachability: rejected iff a new leg has a negative distance (finite evaluation over <0, =0, >0 of both legs)", n1_reachable_law, floor=6)
     ctx.run("C01-M1", "tour limits: violation iff total + change > limit; each limit compared with its own total / change component / code", m1_limit_laws, floor=3)
     ctx.run("C01-S1", "skills: allOf ⊆, oneOf ∩≠∅, noneOf ∩=∅ over the right fields; a job is admitted iff all three hold (finite evaluation)", s1_skill_laws, floor=10)
